@@ -3,6 +3,19 @@ from checks import supmachine as sm
 from checks import _c10_app
 
 
+TREE_IMPORTS = "From Ergo Require Import Common.Base Tree.Model Tree.Cases."
+
+TREE_ASSUMPTIONS = [
+    "forest model (Tree/Model.v): a mailbox accepts every exit signal (a bounded Urgent queue that is full refuses it: "
+    "sendExitMessage returns ErrProcessMailboxFull and nobody retries - outside the model)",
+    "forest model: unregisterProcess sends its exit messages in one step; a process inside ProcessInit is treated like a "
+    "registered one; the spawner of a process whose start failed learns it by the error of Spawn (modelled as the same signal); "
+    "every process eventually handles its mailbox (callbacks return)",
+    "tree scenarios: the environment's choices (who ended without a fatal exit signal: killed, own error, a supervisor's own "
+    "decision, failed init; which signals live processes sent) are read back from the observed run and handed to the model",
+]
+
+
 def run(c):
     c.proofs("theories/Properties/C10.v", clean=(c.tier == "thorough"))
     sm.machine(c, "machine", spec=["spec_no_orphans", "spec_noticed"], premise=["premise_terminated"],
@@ -29,7 +42,26 @@ def run(c):
         out = c.harness("sup", args, timeout=1200)
         if out:
             c.monitor("sup-startfail", out)
-    c.assumptions += sm.ASSUMPTIONS + [
+    # LinkParent closure over arbitrary trees: every scenario is also a Coq case (Tree/Cases.v)
+    is_tree_replay = False
+    if c.replay:
+        import json
+        is_tree_replay = json.load(open(c.replay)).get("engine", "") in ("sup-tree", "sup-tree-search")
+    if not c.replay or is_tree_replay:
+        n = 70 if c.tier == "quick" else 700
+        args = ["tree", "-replay", c.replay] if is_tree_replay else ["tree", "-n", str(n)]
+        out = c.harness("sup", args, timeout=1500)
+        if out:
+            c.cases("sup-tree", out, TREE_IMPORTS, "tcase", corr=["corr_survivors", "corr_signals"],
+                    spec=["spec_no_orphans", "spec_model_no_orphans"], premise=["premise_owner_died"])
+        if c.broken and not c.violations and not c.replay:
+            keep = list(c.broken)
+            out = c.harness("sup", ["tree", "-n", str(n * 4)], timeout=1800, env={"VERIF_SEED": str(c.seed + 7919)})
+            if out:
+                c.cases("sup-tree-search", out, TREE_IMPORTS, "tcase", corr=[], spec=["spec_no_orphans"], premise=["premise_owner_died"])
+            c.broken = keep + [b for b in c.broken if b not in keep]
+    c.assumptions += sm.ASSUMPTIONS + TREE_ASSUMPTIONS + [
         "terminations that bypass the machine (Node.Kill of the supervisor, failed Spawn during a restart) rely on the "
-        "LinkParent exit propagation of node/ - checked end to end on the real node only, not a theorem of this engine",
+        "LinkParent exit propagation of node/: theorem over the forest model Tree/Model.v (C10_tree_*), tied to the real node by "
+        "the tree scenarios (correspondence of survivors and of the exit signals sent at unregistration)",
     ]
